@@ -261,9 +261,11 @@ def run(repo, rep):
 
     rep.run_borrowed(c15, {"C15-d": "C06-m"}, repo)
     rep.clause("C06-q", "SHRAM layout written by the stream: IFM / accumulator partitions are sized per element with 8-channel rounding, double buffered and bank-granule aligned [rule shared with C15-c]")
-    rep.run_borrowed(c15, {"C15-c": "C06-q"}, repo)
+    rep.run_borrowed(c15, {"C15-c": "C06-q", "C15-g": "C06-q"}, repo)
     rep.clause("C06-r", "the zero point register of every feature map is written on every path of its emitter (a scalar second operand still has a zero point that the hardware applies)")
     rule_zero_point_always(repo, rep)
+    rep.clause("C06-t", "a scalar second operand fits the 16-bit field of NPU_SET_IFM2_SCALAR (checked before emission)")
+    rule_scalar_field_width(repo, rep)
     rep.clause("C06-s", "register / operand agreement of the emitter helpers [rule shared with C02-q]")
     from .shared import register_operand_agreement as _roa
 
@@ -1232,3 +1234,23 @@ def rule_zero_point_always(repo, rep):
             raise AnalysisError(f"{fname}: no emission of {reg}")
         rep.check(not c.path_avoiding(0, 1, em), "C06-r", f"ethosu/vela/register_command_stream_generator.py:{fname}", f"{reg} is written on every path through {fname}",
                   f"a path through {fname} leaves without writing {reg}: the register keeps the value of an earlier operation (for a scalar IFM2 the hardware applies that stale zero point to IFM2_SCALAR)")
+
+
+def rule_scalar_field_width(repo, rep):
+    """(t) NPU_SET_IFM2_SCALAR is a cmd0 command: its value travels in the 16-bit parameter field, which cmd0_with_param masks. The
+    quantised scalar may only be emitted after a test against that width (an assert / raise on a 16-bit range, or a comparison with
+    0xFFFF / 65535 / 32767); the test against the operand's data type alone lets an INT32 scalar of 100000 through as 34464."""
+    m = repo.mod("register_command_stream_generator")
+    f = m.func("generate_elementwise_op")
+    site = "ethosu/vela/register_command_stream_generator.py:generate_elementwise_op"
+    ems = [c for c in ast.walk(f) if isinstance(c, ast.Call) and "cmd0_with_param" in str(norm(c.func)) and c.args and str(norm(c.args[0])) == "cmd0.NPU_SET_IFM2_SCALAR"]
+    if len(ems) != 1:
+        raise AnalysisError("generate_elementwise_op: emission of NPU_SET_IFM2_SCALAR not found")
+    val = str(norm(ems[0].args[1]))
+    checks = []
+    for x in ast.walk(f):
+        if isinstance(x, (ast.Assert, ast.If)) and x.lineno < ems[0].lineno and val in str(norm(x.test)):
+            checks.append(str(norm(x.test)))
+    wide = [t for t in checks if any(k in t for k in ("65535", "0xFFFF", "0xffff", "32767", "32768", "1 << 16", "1 << 15", "DataType.int16", "DataType.uint16", "fits_16"))]
+    rep.check(bool(wide), "C06-t", site, f"`{val}` is checked against the 16-bit parameter field before NPU_SET_IFM2_SCALAR is emitted",
+              f"checks before the emission: {checks or 'none'}: only the operand's data type bounds the value; an INT32 scalar of 100000 is emitted as 34464, -40000 as +25536 (cmd0_with_param masks to 16 bits)")
